@@ -40,7 +40,7 @@ WRAP_WHAT = ("enki::LockLessMultiReadPipe (rkcommon/tasking/detail/enkiTS/LockLe
              "always true, the search restarts at the stale m_ReadIndex for ever (cSizeLog2=1, indices pre-advanced to 4294967294, "
              "WriterTryWriteFront(1), WriterTryWriteFront(2), ReaderTryReadBack -> 1, ReaderTryReadBack -> spins), and (b) "
              "WriterTryReadFront returns false although items are queued: `0 == frontReadIndex` (same start, write, write, "
-             "WriterTryReadFront -> false with 2 items queued). Hand-off safety (a) and the bookkeeping equation (b) of PropertiesPipe.v hold regardless; the no-stranded-item statement (c) is refuted (pipe_no_stranded_item_refuted, pipe_wrap32_strands_items) and its no-wrap restriction is tested only.")
+             "WriterTryReadFront -> false with 2 items queued). Hand-off safety (a) and the bookkeeping equation (b) of PropertiesPipe.v hold regardless; the no-stranded-item statement (c) is refuted there (pipe_no_stranded_item_refuted, pipe_wrap32_strands_items) and proved for histories without index wrap (pipe_no_stranded_item_nowrap).")
 
 
 # ====================================================================================== build steps
@@ -1034,7 +1034,7 @@ def run_pipe(ctx, wrap_cases=True, private_coq=True, do_stress=True, do_explore=
         "and by itself says nothing about the C++ code; local instructions are merged into the preceding shared access (they commute)",
         "index wrap-around of the pipe (about 2^32 steals from one pipe): hand-off safety and the bookkeeping theorems hold across it, "
         "the no-stranded-item statement is refuted there (pipe_no_stranded_item_refuted) and the oracle's liveness clause is not applied "
-        "in the wrap zone: known finding " + WRAP_SIG + "; without wrap that statement is tested (exploration), not proved",
+        "in the wrap zone: known finding " + WRAP_SIG + "; without wrap that statement is proved (PropertiesPipeStrand.v), the exploration is then a redundant model test",
     ]
     ctx.cov["pipe_wall_s"] = round(time.time() - t0, 1)
     log("pipe part done in %.1fs" % (time.time() - t0))
